@@ -2,7 +2,7 @@
    ordered choice of `term` (symbolic in the name), except — while bool / null lack the word-boundary
    look-ahead — names that extend true / false / null (refuted with a witness). *)
 From Coq Require Import String Ascii List Bool Arith Lia.
-Require Import Blots.C10Ident.
+Require Import Blots.PrattTypes Blots.C10Ident.
 Import ListNotations.
 Local Open Scope string_scope.
 
@@ -315,3 +315,50 @@ Proof. intro Hb. unfold term_word_impl. rewrite Hb. vm_compute. reflexivity. Qed
 Lemma ident_rule_full_when_guarded : bool_boundary = true -> null_boundary = true -> ident_rule_full.
 Proof. intros Hb Hn s rest Hv Hr Hbd. apply ident_rule_impl; auto. Qed.
 
+
+(* ------------------------------------------------------------------ symbol operators after an operand *)
+Definition after_is (a : after_operand) (nf nd : nat) (r : oprule) (rest : string) : bool :=
+  match a with
+  | AfterOp nf' nd' r' rest' => Nat.eqb nf nf' && Nat.eqb nd nd' && oprule_eqb r r' && String.eqb rest rest'
+  | _ => false
+  end.
+
+(* every symbol operator, written WITHOUT blanks directly after an operand and directly before the
+   next one, is read as itself (the ordered choice `infix_op` never lets a shorter operator win and no
+   postfix operator takes its first character) — except `!=` while `factorial` is the bare "!" *)
+Lemma tight_ops_all :
+  forallb (fun rw => (known_bang (fst rw) && Nat.eqb factorial_guard 0)
+                     || after_is (after_operand_impl (snd rw ++ "b")) 0 0 (fst rw) "b") infix_ops = true.
+Proof. vm_compute. reflexivity. Qed.
+(* ... also directly after a factorial and after a field access *)
+Lemma tight_ops_after_postfix :
+  forallb (fun rw => (known_bang (fst rw) && Nat.eqb factorial_guard 0)
+                     || (after_is (after_operand_impl ("!" ++ snd rw ++ "b")) 1 0 (fst rw) "b" &&
+                         after_is (after_operand_impl (".f" ++ snd rw ++ "b")) 0 1 (fst rw) "b")) infix_ops = true.
+Proof. vm_compute. reflexivity. Qed.
+(* with blanks every symbol operator is read as itself *)
+Lemma spaced_ops_all :
+  forallb (fun rw => after_is (after_operand_impl (" " ++ snd rw ++ " b")) 0 0 (fst rw) "b" &&
+                     after_is (after_operand_impl (" " ++ snd rw ++ "b")) 0 0 (fst rw) "b") infix_ops = true.
+Proof. vm_compute. reflexivity. Qed.
+(* all 21 symbol operators of the precedence table are alternatives of infix_op *)
+Lemma infix_ops_complete :
+  forallb (fun r => match assoc_find r infix_ops with Some _ => true | None => false end)
+          [R_add; R_subtract; R_multiply; R_divide; R_modulo; R_power; R_equal; R_not_equal; R_less; R_less_eq;
+           R_greater; R_greater_eq; R_dot_equal; R_dot_not_equal; R_dot_less; R_dot_less_eq; R_dot_greater;
+           R_dot_greater_eq; R_and; R_or; R_coalesce] = true.
+Proof. vm_compute. reflexivity. Qed.
+
+Definition tight_ops_full : Prop :=
+  forallb (fun rw => after_is (after_operand_impl (snd rw ++ "b")) 0 0 (fst rw) "b") infix_ops = true.
+Lemma tight_ops_full_refuted : factorial_guard = 0 -> ~ tight_ops_full.
+Proof. intros Hg H. unfold tight_ops_full, after_operand_impl in H. rewrite Hg in H. vm_compute in H. discriminate H. Qed.
+Lemma bang_equals_witness : factorial_guard = 0 -> after_operand_impl "!=b" = AfterNothing 1 0 "=b".
+Proof. intros Hg. unfold after_operand_impl. rewrite Hg. vm_compute. reflexivity. Qed.
+Lemma tight_ops_full_when_guarded : factorial_guard <> 0 -> tight_ops_full.
+Proof.
+  intros Hg. pose proof tight_ops_all as H. unfold tight_ops_full.
+  destruct factorial_guard as [|g] eqn:E; [congruence|].
+  rewrite forallb_forall in *. intros rw Hin. specialize (H rw Hin).
+  cbn [Nat.eqb] in H. rewrite andb_false_r in H. exact H.
+Qed.
